@@ -744,3 +744,27 @@ def cut_out_spans(ctx, fi, rule='SLICE'):
                           f"its own start and the start of group {ga} stays in the text and is parsed a second time",
                           key=f"{rule}|{fi.qualname}|cut|{ga}|{gb}", where=loc(fi, sx))
     return n
+
+
+def mixed_pop_ends(ctx, funcs, rule='ORDER'):
+    """A list that one function consumes with `pop(0)` in one place and with
+    `pop()` / `pop(-1)` in another is read from both ends: the elements come
+    out in an order that matches neither.  Empty baseline."""
+    n = 0
+    for fi in funcs:
+        ends = {}
+        for c in walk_local(fi.node):
+            if isinstance(c, ast.Call) and isinstance(c.func, ast.Attribute) and c.func.attr == 'pop' \
+                    and isinstance(c.func.value, ast.Name) and len(c.args) <= 1:
+                arg = norm(c.args[0]) if c.args else '-1'
+                if arg in ('0', '-1'):
+                    ends.setdefault(c.func.value.id, {}).setdefault(arg, c)
+        for name, by_end in ends.items():
+            n += 1
+            if len(by_end) > 1:
+                c = by_end['-1']
+                ctx.violation(rule, f"{fi.qualname}: `{name}` is consumed from one end only",
+                              f"`{norm(by_end['0'])}` takes from the front but `{norm(c)}` takes from the back: with three or more "
+                              f"items the later ones are used in reversed order (keys / levels no longer line up with the list given)",
+                              key=f"{rule}|{fi.qualname}|pop-ends|{name}", where=loc(fi, c))
+    return n
